@@ -349,6 +349,7 @@ func c21KV(fields []string) map[string]string {
 // c21StreamOracle is the property stated on the real wire trace of one stream.
 type c21StreamOracle struct {
 	exchange bool
+	issued   map[string]bool // cursors some response handed out
 	burnt    map[string]bool // cursors sent and not re-issued by a later response
 	poisoned bool            // an exchange turn ended ambiguously: no further request may be sent
 	clean    bool            // no data-changing fault so far (producer exactness)
@@ -426,6 +427,12 @@ func c21Exec(c *Case) {
 			}
 			if so.poisoned {
 				c.Oracle("request-after-ambiguous-exchange", fmt.Sprintf("%s sent a continuation request (cursor %s) after an exchange turn that ended ambiguously", op, env.tokID(w.cursor)))
+			}
+			if w.cursor != "" && !so.issued[w.cursor] {
+				c.Oracle("cursor-never-issued", fmt.Sprintf("%s sent cursor %s which no response had handed out", op, env.tokID(w.cursor)))
+			}
+			for _, t := range w.tokens {
+				so.issued[t] = true
 			}
 			if so.exchange {
 				if w.cursor == "" {
@@ -668,7 +675,12 @@ func c21Exec(c *Case) {
 				c.Stat("open-" + res[:min(len(res), 12)])
 			} else {
 				env.stream = st
-				so = &c21StreamOracle{exchange: exchange, burnt: map[string]bool{}, clean: passThrough(), servedAt: emittedFrom}
+				so = &c21StreamOracle{exchange: exchange, issued: map[string]bool{}, burnt: map[string]bool{}, clean: passThrough(), servedAt: emittedFrom}
+				for _, w := range env.rt.wire {
+					for _, t := range w.tokens {
+						so.issued[t] = true
+					}
+				}
 				res = "ok hdr=none"
 				if h := st.Header(); h != nil {
 					res = fmt.Sprintf("ok hdr=%d:%s:%s", h.Batch.NumRows(), c21Payload(h.Batch), env.mdWords(h.Metadata))
